@@ -318,7 +318,7 @@ fn check_case(l: &mut Local<'_>, cfg: ModeCfg, map: &Beatmap, setts: &[Setting],
 
 fn main() {
     let ctx = Ctx::from_env_caps("C15", 50, 1500);
-    ctx.rule("case = (mode configuration, grammar map); per case and setting a BFS over all histories of next / nth(k) / len / size_hint (+ terminal std adaptors step_by, skip, collect, last, count, zip) on a fresh gradual difficulty calculator, and of next / nth / last / len on a gradual performance calculator; state key = (reference position, calls after exhaustion <= 2); settings = no mod, DT, and (on maps of <= 4 objects) a Difficulty that itself carries passed_objects(0|1|2); reference = plain next() iteration of a fresh calculator built from the same Difficulty; non-trivial = calculator yields at least one value");
+    ctx.rule("case = (mode configuration, grammar map); per case and setting a BFS over all histories of next / nth(k) / len / size_hint (+ terminal std adaptors step_by, skip, collect, last, count, zip) on a fresh gradual difficulty calculator, and of next / nth / last / len on a gradual performance calculator; state key = (reference position, calls after exhaustion <= 2); settings = no mod, DT, for mania also Invert / HoldOff / both / Random on maps of <= 4 notes in two columns (lists that the mods shorten or empty), and (on maps of <= 4 objects) a Difficulty that itself carries passed_objects(0|1|2); reference = plain next() iteration of a fresh calculator built from the same Difficulty; non-trivial = calculator yields at least one value");
     ctx.assume("values themselves are C02/C03's business; here only the protocol (which value, None, len) is decided");
 
     let n_max: u32 = ctx.pick(5, 6);
@@ -347,6 +347,20 @@ fn main() {
                 l.sample(o);
             }
             check_case(l, *cfg, &map, &setts, depth, &|| format!("cfg={cfg:?}\nspec={}\n--- .osu ---\n{}", spec.describe(), spec.text()));
+        });
+    }
+    // mania under mods that rebuild the object list (Invert, HoldOff, both, Random): the calculator iterates whatever list the
+    // mods leave — shorter than the map's, possibly empty (Invert on a column with a single note leaves nothing)
+    for cfg in MODE_CFGS.iter().filter(|c| c.dst == 3) {
+        let kinds = if cfg.src == 3 { vec![Kind::Circle, Kind::Hold(300)] } else { vec![Kind::Circle, Kind::Slider2] };
+        let alpha = Alphabet::product(&kinds, &[0, 150], &[PosK::Same], &[0], &[0, 1]);
+        let n_max = 4u32;
+        let setts = [Setting::mods(settings::ModSpec::Invert), Setting::mods(settings::ModSpec::HoldOff), Setting::mods(settings::ModSpec::HoIn(None)), Setting::mods(settings::ModSpec::Random(Some(7.0)))];
+        let name = format!("mania-rebuilding-mods/{}to{}/N<={n_max}", cfg.src, cfg.dst);
+        ctx.universe(&name, alpha.count_upto(n_max), |idx, l| {
+            let spec = MapSpec::new(cfg.src, alpha.seq(idx, n_max));
+            let map = spec.decode();
+            check_case(l, *cfg, &map, &setts, 8, &|| format!("cfg={cfg:?}\nspec={}\n--- .osu ---\n{}", spec.describe(), spec.text()));
         });
     }
     // degenerate sliders (a path without length with repeats; 10 px) among circles, every mode configuration
